@@ -115,6 +115,30 @@ def job_fp(res, n, nb, fptype, dt, margin):
             witness(res, 'FP fptype=%d dt=%d: output depends on e1' % (fptype, dt), list(s.pc) + [z3.Real('e1b') > 0, z3.Real('e1b') <= Fraction(1, 4)], z3.Or(*[z3.substitute(c, (e1, z3.Real('e1b'))) != c for c in outs]))
         witness(res, 'FP fptype=%d dt=%d: twin with a false claim is refuted' % (fptype, dt), s.pc, sum(units[rows[0]][1:], units[rows[0]][0]) != 2)
 
+def job_target_overwritten(res, what, n, nb, it):
+    """a transport step is a function of its source grid: whatever the target grid held before (an earlier step's result) is overwritten, no old charge survives.  Every cell of the
+    target is symbolic before the call; for the generic kicks one row of every bunch is displaced off the grid and another by half the grid (the rows such steps zero)."""
+    bld = maps_build(); mod = load_module(bld, MAPS_MODS)
+    snap, R, pre = maps_world(bld, n, nb, it)
+    ex = Exec(mod, snap, RealDom()); st = State()
+    OLD = sym_reals(ex, st, R['data_out'], ['old%d' % i for i in range(nb * n * n)], -1, 1)
+    if what in ('kmx', 'kmy'):
+        off = 'offy' if what == 'kmy' else 'offx'
+        for b in range(nb):
+            for r, v in ((1, float(n)), (n - 2, -float(n) - 0.5), (n // 2, float(n // 2)), (2, -float(n // 2) - 0.25)):
+                ex.write_bytes(st, R[off + '_data'] + 4 * (b * n + r), struct.pack('<f', v))
+        sts = run_paths(ex, st, 'e_km_swap_apply', [R[what], R[off]])
+    else: sts = run_paths(ex, st, 'e_apply', [R[what]])
+    account(res, ex, mod, sts)
+    for s1 in sts:
+        outs = get_reals(ex, s1, R['data_out'], nb * n * n)
+        alt = [z3.Real('alt%d' % i) for i in range(nb * n * n)]
+        sub = list(zip(OLD, alt))
+        def cex(m): return {'replay': 'target', 'what': what, 'n': n, 'nb': nb, 'it': it}
+        prove(res, '%s n=%d nb=%d it=%d: no cell of the target grid depends on what the target held before the step (all %d cells; rows displaced off the grid included)' % (what, n, nb, it, nb * n * n), s1.pc,
+              z3.Or(*[z3.substitute(o, *sub) != o for o in outs if not z3.is_rational_value(o)] + [z3.BoolVal(False)]), key='target-overwritten', cex_fn=cex)
+    witness(res, '%s: target cells are computed (n=%d)' % (what, n), sts[0].pc, z3.BoolVal(True))
+
 def job_identity(res, n, nb):
     bld = maps_build(); mod = load_module(bld, MAPS_MODS)
     snap, R, pre = maps_world(bld, n, nb, 4)
@@ -128,6 +152,19 @@ def job_identity(res, n, nb):
 def replayer(bld):
     def rp(path, c):
         what = c['replay']; n = c['n']; nb = c['nb']
+        if what == 'target':
+            w = c['what']; spec = {'n': n, 'nb': nb, 'it': c['it'], 'seed': 7}
+            if w in ('kmx', 'kmy'):
+                off = [0.3] * (nb * n)
+                for b in range(nb):
+                    for r, v in ((1, float(n)), (n - 2, -float(n) - 0.5), (n // 2, float(n // 2)), (2, -float(n // 2) - 0.25)): off[b * n + r] = v
+                spec.update({'what': 'kick', 'axis': 1 if w == 'kmy' else 0, 'off': off})
+            else:
+                spec.update({'what': {'fpm': 'fp', 'idm': 'identity'}.get(w, w)})
+                if w == 'drift': spec.update({'slip': [0.11, 0.013, 0.0017], 'E0': 1.3e9})
+            oa = native_run(bld, dict(spec, out_fill=0.0), 'c01a')['out']; ob = native_run(bld, dict(spec, out_fill=0.77), 'c01b')['out']
+            nd = sum(1 for x, y in zip(oa, ob) if x != y)
+            return (nd > 0, 'native: %d target cells differ between a run into an empty target grid and a run into a target grid filled with 0.77' % nd)
         if what == 'kick':
             b, r, axis = c['bunch'], c['row'], c['axis']
             data = [0.0] * (nb * n * n)
@@ -176,6 +213,7 @@ def main(tier):
                 if (b, r) in seen: continue
                 seen.add((b, r)); jobs.append((job_kick_row, (n, nb, it, axis, b, r, margin, kmax)))
     jobs += [(job_fixed_kick, a) for a in fixed] + [(job_fp, a) for a in fps] + [(job_identity, a) for a in ids]
+    jobs += [(job_target_overwritten, (w, n_, nb_, it_)) for w in ('kmx', 'kmy', 'rflin', 'drift', 'fpm', 'idm') for (n_, nb_, it_) in (((8, 2, 4), (9, 1, 2)) if tier == 'quick' else ((8, 2, 4), (9, 1, 2), (10, 2, 3), (7, 3, 1)))]
     chk.bounds = {'generic kick': 'grids %s, bunches 1-2, 1-4 interpolation points, both axes; one row at a time with symbolic displacement |off| <= kmax (integer part case-split by the solver, fraction real) and symbolic data >= 3 cells from the border; other rows concrete' % sorted({c[0] for c in kcfg}),
                   'rf/drift': 'displacement field from the real constructor at the harness parameters; all interior data symbolic',
                   'fokker-planck': 'constructor run from IR with symbolic e1 in (0,1/4], all 4 FP types x 3/4-point stencil, shifted energy axis, grid 16 (15,16,20), one symbolic column per bunch supported >= 2 (3-point) / 4 (4-point) rows from the border, decided per unit source cell + linearity obligation',
